@@ -28,6 +28,8 @@ type plBlock struct {
 	applyStart []uint64
 	applyEnd   []uint64
 	results    int
+	valFail    bool // the epoch-nonce provider fails for this block: it does not validate
+	resValid   bool // the item on Results() said it had validated
 }
 
 func pipelineSetup(s *rt.Sim, tier string) func() {
@@ -45,6 +47,33 @@ func pipelineSetup(s *rt.Sim, tier string) func() {
 		stopEarly := chance("cfg", 1, 4)
 		expiring := chance("cfg", 1, 3) // some submissions use contexts that expire
 		ndrain := pick("cfg", 3)
+		// tuning knobs: out-of-order buffer limit of the apply stage, validation stage
+		maxPending := oneOf("cfg", 0, 1, 2, 4)
+		valWorkers := oneOf("cfg", 0, 0, 1, 4, 16)
+		slowVal := pick("cfg", 3)
+		failSlot := map[uint64]bool{} // eras whose epoch nonce cannot be provided
+		if valWorkers > 0 {
+			for _, fb := range blocks {
+				if chance("cfg", 1, 3) {
+					failSlot[fb.Slot] = true
+				}
+			}
+		}
+		type valCall struct{ start, end uint64 }
+		var valCalls []*valCall
+		eta0Provider := func(slot uint64) (string, error) {
+			// runs inside a validate worker
+			vc := &valCall{start: rt.Stamp()}
+			valCalls = append(valCalls, vc)
+			defer func() { vc.end = rt.Stamp() }()
+			if slowVal > 0 && chance("op", slowVal, 3) {
+				sleep(oneOf("op", time.Millisecond, 40*time.Millisecond, 700*time.Millisecond))
+			}
+			if failSlot[slot] {
+				return "", fmt.Errorf("harness: no epoch nonce for slot %d", slot)
+			}
+			return "4ef95a10f639d0cf16bb963c3a580d4bf2a95b6ae7848702665884843e3c661d", nil
+		}
 		var all []*plBlock
 		byIdx := map[uint64]*plBlock{}
 		applyOrder := []uint64{} // sequence numbers in apply-call order
@@ -70,13 +99,22 @@ func pipelineSetup(s *rt.Sim, tier string) func() {
 			}
 			return nil
 		}
-		p := pipeline.NewBlockPipeline(
+		plOpts := []pipeline.PipelineOption{
 			pipeline.WithDecodeWorkers(workers),
-			pipeline.WithValidateWorkers(0),
+			pipeline.WithValidateWorkers(valWorkers),
 			pipeline.WithPrefetchBufferSize(buf),
 			pipeline.WithApplyFunc(applyFunc),
 			pipeline.WithSkipBodyHashValidation(true),
-		)
+		}
+		if maxPending > 0 {
+			plOpts = append(plOpts, pipeline.WithMaxPendingBlocks(maxPending))
+			rt.Hit("pl.small-pending-limit")
+		}
+		if valWorkers > 0 {
+			plOpts = append(plOpts, pipeline.WithEta0Provider(eta0Provider), pipeline.WithSlotsPerKesPeriod(129600))
+			rt.Hit("pl.validation-on")
+		}
+		p := pipeline.NewBlockPipeline(plOpts...)
 		if err := p.Start(context.Background()); err != nil {
 			rt.Violate("C42/start-failed", "Start: %v", err)
 			return
@@ -87,8 +125,12 @@ func pipelineSetup(s *rt.Sim, tier string) func() {
 			for item := range p.Results() {
 				if b := byIdx[item.Tip().BlockNumber]; b != nil {
 					b.results++
+					b.resValid = item.IsValid()
 					if !b.good && item.IsApplied() {
 						rt.Violate("C42/failed-block-applied", "block %d does not decode but its result says applied", b.idx)
+					}
+					if b.valFail && (item.IsApplied() || item.IsValid()) {
+						rt.Violate("C42/failed-block-applied", "block %d cannot validate (no epoch nonce) but its result says valid=%v applied=%v", b.idx, item.IsValid(), item.IsApplied())
 					}
 				}
 			}
@@ -107,7 +149,7 @@ func pipelineSetup(s *rt.Sim, tier string) func() {
 				defer func() { fin <- struct{}{} }()
 				for i := 0; i < perSub; i++ {
 					fb := blocks[pick("op", len(blocks))]
-					b := &plBlock{idx: len(all) + 1, good: true, task: task}
+					b := &plBlock{idx: len(all) + 1, good: true, task: task, valFail: failSlot[fb.Slot]}
 					data := fb.Data
 					if chance("op", 1, 5) {
 						b.good = false
@@ -173,15 +215,64 @@ func pipelineSetup(s *rt.Sim, tier string) func() {
 		for i := 0; i < ndrain; i++ {
 			<-drainFin
 		}
-		desc := fmt.Sprintf("workers=%d buffer=%d submitters=%dx%d slowApply=%d expiringCtx=%v stopEarly=%v", workers, buf, nsub, perSub, slowApply, expiring, stopEarly)
+		// a last drain once every Submit has returned: it covers every accepted block
+		if !stopEarly {
+			ctx, cancel := context.WithTimeout(context.Background(), 10*time.Minute)
+			r := &drainRec{inv: rt.Stamp()}
+			r.err = p.WaitForDrain(ctx)
+			r.ret = rt.Stamp()
+			cancel()
+			drains = append(drains, r)
+			if r.err == nil {
+				rt.Hit("pl.final-drain-returned")
+			} else {
+				rt.Hit("pl.final-drain-failed")
+			}
+		}
+		desc := fmt.Sprintf("workers=%d buffer=%d submitters=%dx%d slowApply=%d expiringCtx=%v stopEarly=%v maxPending=%d validateWorkers=%d", workers, buf, nsub, perSub, slowApply, expiring, stopEarly, maxPending, valWorkers)
 		// ---- C43: a successful WaitForDrain really waited
 		for _, d := range drains {
 			if d.err != nil {
 				continue
 			}
 			rt.Hit("pl.drain-returned")
+			// every submission was over before this wait began and none had been
+			// refused: then no block may be inside the validator when it returns
+			allBefore := true
+			for _, b := range all {
+				if b.err != nil || b.ret == 0 || b.ret >= d.inv {
+					allBefore = false
+				}
+			}
+			if allBefore && !stopping {
+				for _, vc := range valCalls {
+					if vc.end == 0 || vc.end > d.ret {
+						rt.Violate("C43/drain-returned-early", "%s: WaitForDrain began at event %d after every Submit had returned and returned nil at event %d, but a block was inside a validate worker (nonce provider called at event %d, returned at %d)", desc, d.inv, d.ret, vc.start, vc.end)
+						return
+					}
+				}
+				rt.Hit("pl.drain-after-all-submits")
+			}
 			for _, b := range all {
 				if b.err != nil || b.ret >= d.inv || !b.good {
+					continue
+				}
+				if valWorkers > 0 {
+					// with validation on, whether the block is applied at all is the
+					// validator's verdict; only "no apply call after the drain" is judged
+					for k, st := range b.applyStart {
+						if stopping {
+							break
+						}
+						if st > d.ret {
+							rt.Violate("C43/drain-returned-early", "%s: WaitForDrain returned nil at event %d, but block %d (submitted before the wait began) was applied afterwards (event %d)", desc, d.ret, b.idx, st)
+							return
+						}
+						if k >= len(b.applyEnd) || b.applyEnd[k] > d.ret {
+							rt.Violate("C43/drain-returned-early", "%s: WaitForDrain returned nil at event %d while the apply call of block %d (submitted before the wait began) was still running", desc, d.ret, b.idx)
+							return
+						}
+					}
 					continue
 				}
 				late := false
@@ -219,7 +310,7 @@ func pipelineSetup(s *rt.Sim, tier string) func() {
 					failedSeen = true
 					continue
 				}
-				if failedSeen && b.good && len(b.applyStart) == 0 {
+				if failedSeen && b.good && len(b.applyStart) == 0 && (valWorkers == 0 || b.resValid) {
 					rt.Violate("C44/later-block-never-applied", "%s: block %d was submitted successfully after a failed submission and was not applied within 2 simulated minutes", desc, b.idx)
 					return
 				}
@@ -239,6 +330,9 @@ func pipelineSetup(s *rt.Sim, tier string) func() {
 				want := 0
 				if b.good {
 					want = 1
+				}
+				if valWorkers > 0 && (b.valFail || !b.resValid) {
+					want = 0 // did not validate: never applied
 				}
 				if len(b.applyStart) != want {
 					rt.Violate("C42/apply-count", "%s: block %d (decodable=%v) was applied %d times", desc, b.idx, b.good, len(b.applyStart))
